@@ -768,6 +768,7 @@ Definition run_guards_wire (x : xval) : xval :=
   | _ => bad_input
   end.
 
+(** component ["guards.push"]: the same for what the server PUSHES over HTTP/2 for a page that links guarded files *)
 Definition guards_table : list (bytes * (xval -> xval)) :=
   [ (B "guards.run", run_guards); (B "guards.run_v0", run_guards_v0); (B "guards.spec", run_guards_spec);
-    (B "guards.wire", run_guards_wire) ].
+    (B "guards.wire", run_guards_wire); (B "guards.push", run_guards_wire) ].
